@@ -28,6 +28,34 @@ def _module(prop: str):
     return importlib.import_module(f"cpverif.props.{prop.lower()}")
 
 
+def _start_linecov():
+    """Development aid (CPV_LINECOV=<dir>): which lines of the library does a check execute?"""
+    lib = os.path.join(core.REPO, "chartparse") + os.sep
+    seen = set()
+
+    def local(frame, event, arg):
+        if event == "line":
+            seen.add((frame.f_code.co_filename, frame.f_lineno))
+        return local
+
+    def glob(frame, event, arg):
+        if frame.f_code.co_filename.startswith(lib):
+            seen.add((frame.f_code.co_filename, frame.f_lineno))
+            return local
+        return None
+
+    sys.settrace(glob)
+    return seen
+
+
+def _stop_linecov(seen, tag):
+    sys.settrace(None)
+    d = os.environ["CPV_LINECOV"]
+    os.makedirs(d, exist_ok=True)
+    with open(os.path.join(d, tag + ".json"), "w") as f:
+        json.dump(sorted([os.path.basename(a), b] for a, b in seen), f)
+
+
 def _find_violation(e, depth=0, seen=None):
     seen = seen if seen is not None else set()
     if e is None or id(e) in seen or depth > 12:
@@ -55,6 +83,7 @@ def _run_shard(task):
     ctx = Ctx(prop, part_name, tier, seed, shard, nshards, known)
     viol = None
     err = None
+    cov = _start_linecov() if os.environ.get("CPV_LINECOV") else None
     try:
         part.run(ctx)
     except Violation as v:
@@ -81,6 +110,8 @@ def _run_shard(task):
                         "case": ctx.current, "signature": None}
             else:
                 err = traceback.format_exc()
+    if cov is not None:
+        _stop_linecov(cov, f"{prop}-{part_name}-{shard}")
     res = ctx.result()
     res["violation"] = viol
     res["error"] = err
